@@ -4,6 +4,9 @@ import Ptn.C11.Lemmas
 import Ptn.C11.MatrixLemmas
 import Ptn.C11.Value
 import Ptn.C11.ValueLemmas
+import Ptn.C11.Tensordot
+import Ptn.C11.TensordotLemmas
+import Ptn.Common.EinsumArray
 /-! Property theorems for C11 (index logic of tensor QR / SVD).  Only property theorems and
 non-vacuity examples live here; helper lemmas are in `Lemmas.lean` / `MatrixLemmas.lean`, the
 specification vocabulary (`Bipartition`, `qrBond`, `qrPad`, `svdBonds`) in `Spec.lean`.
@@ -358,6 +361,100 @@ theorem svd_reconstructs {α : Type} [CommSemiring α] (mode : Mode) (T : Arr α
   simp only [hk]
   exact reconstruct_core _ U Vh _ _ _ _ _ s rfl hU hV hc ia ib hia hib
 
+/-! ### Value level: `numpy.tensordot` computes `Ptn.Ein.sumPairs`
+
+`arrTensordot` (`Tensordot.lean`) is NumPy's implementation of `tensordot` line by line on the array model:
+transpose the contracted axes of `a` to the end and of `b` to the front, reshape both to matrices (same flat
+C-order data), matrix product, reshape to the remaining shapes.  `notIn n axes` are the remaining axes (ascending),
+`unpermute axes idx'` is the multi-index `idx` with `idx[axes[j]] = idx'[j]`, `sumIdx ds f` is the nested sum of `f`
+over all multi-indices of shape `ds` (`sumIdx_eq_sum_range`: the sum over all flat positions). -/
+
+/-- **`numpy.tensordot` accepts exactly** duplicate-free axis lists within range that name equal dimensions in
+    order (in particular lists of equal length); everything else raises. -/
+theorem arr_tensordot_accepts_iff {α : Type} [CommSemiring α] (a b : Arr α) (ia ib : List Nat) :
+    (∃ C, arrTensordot a b ia ib = some C) ↔
+      (ia.Nodup ∧ ib.Nodup ∧ (∀ x ∈ ia, x < a.shape.length) ∧ (∀ x ∈ ib, x < b.shape.length) ∧
+        ia.map (dimAt a.shape) = ib.map (dimAt b.shape)) :=
+  arrTensordot_isSome_iff a b ia ib
+
+/-- **Entries of `numpy.tensordot`.**  For every two arrays over a commutative semiring and all duplicate-free
+    axis lists within range naming equal dimensions: the result has the remaining dimensions of `a` followed by
+    those of `b`, and its entry at `(i⃗, j⃗)` is the sum over all multi-indices `k⃗` of the contracted dimensions of
+    `a[i⃗ at the remaining axes, k⃗ at the contracted axes] · b[k⃗ at the contracted axes, j⃗ at the remaining axes]`. -/
+theorem arr_tensordot_entry {α : Type} [CommSemiring α] (a b : Arr α) (ia ib : List Nat)
+    (hia : ia.Nodup) (hib : ib.Nodup)
+    (hla : ∀ x ∈ ia, x < a.shape.length) (hlb : ∀ x ∈ ib, x < b.shape.length)
+    (hd : ia.map (dimAt a.shape) = ib.map (dimAt b.shape)) :
+    ∃ C, arrTensordot a b ia ib = some C ∧
+      C.shape = (notIn a.shape.length ia).map (dimAt a.shape) ++ (notIn b.shape.length ib).map (dimAt b.shape) ∧
+      ∀ is js, ValidIdx ((notIn a.shape.length ia).map (dimAt a.shape)) is →
+        ValidIdx ((notIn b.shape.length ib).map (dimAt b.shape)) js →
+        C.get (is ++ js) = sumIdx (ia.map (dimAt a.shape)) (fun ks =>
+          a.get (unpermute (notIn a.shape.length ia ++ ia) (is ++ ks)) *
+          b.get (unpermute (ib ++ notIn b.shape.length ib) (ks ++ js))) :=
+  arrTensordot_get a b ia ib hia hib hla hlb hd
+
+open Ptn.Ein in
+/-- **`numpy.tensordot` computes `sumPairs`.**  Label the axes of `a` by `la` and those of `b` by `lb` (distinct
+    labels, dimension table `dim` agreeing with the shapes) and read arrays as leaf tensors through their labels
+    (`Arr.toLeaf`: value at an assignment = entry at the multi-index the assignment gives the legs).  Then the
+    result of `tensordot(a, b, (ia, ib))`, read through `remaining labels of a ++ remaining labels of b`, is
+    `sumPairs dim (zip (labels of ia) (labels of ib)) (a · b)` at every assignment within the dimensions of the
+    free legs; its shape is the dimensions of these free legs. -/
+theorem arr_tensordot_is_sumPairs {L : Type} [DecidableEq L] {α : Type} [CommSemiring α]
+    (dim : L → Nat) (a b : Arr α) (ia ib : List Nat) (la lb : Nat → L)
+    (hia : ia.Nodup) (hib : ib.Nodup)
+    (hlta : ∀ x ∈ ia, x < a.shape.length) (hltb : ∀ x ∈ ib, x < b.shape.length)
+    (hd : ia.map (dimAt a.shape) = ib.map (dimAt b.shape))
+    (hLa : Labelling dim a.shape la) (hLb : Labelling dim b.shape lb)
+    (hdis : ∀ x y, x < a.shape.length → y < b.shape.length → la x ≠ lb y) :
+    ∃ C, arrTensordot a b ia ib = some C ∧
+      C.shape = ((notIn a.shape.length ia).map la ++ (notIn b.shape.length ib).map lb).map dim ∧
+      ∀ σ : Asg L,
+        (∀ l ∈ (notIn a.shape.length ia).map la ++ (notIn b.shape.length ib).map lb, σ l < dim l) →
+        C.toLeaf ((notIn a.shape.length ia).map la ++ (notIn b.shape.length ib).map lb) σ =
+          sumPairs dim (List.zip (ia.map la) (ib.map lb))
+            (fun τ => a.toLeaf (axisLegs la a.shape.length) τ * b.toLeaf (axisLegs lb b.shape.length) τ) σ :=
+  arrTensordot_sumPairs dim a b ia ib la lb hia hib hlta hltb hd hLa hLb hdis
+
+open Ptn.Ein in
+/-- **`numpy.tensordot` is `Expr.dot`.**  The same in the vocabulary of contraction programs: the expression
+    `tensordotExpr` (the two labelled arrays as leaves, one `dot` over the zipped labels) is strongly well formed -
+    so `Expr.eval_eq_full`, `Expr.inner_of_record`, … apply to programs built from such calls -, the result array
+    has the dimensions of `Expr.free` (NumPy's leg order) and, read through `Expr.free`, is `Expr.eval`. -/
+theorem arr_tensordot_is_dot {L : Type} [DecidableEq L] {α : Type} [CommSemiring α]
+    (dim : L → Nat) (a b : Arr α) (ia ib : List Nat) (la lb : Nat → L)
+    (hia : ia.Nodup) (hib : ib.Nodup)
+    (hlta : ∀ x ∈ ia, x < a.shape.length) (hltb : ∀ x ∈ ib, x < b.shape.length)
+    (hd : ia.map (dimAt a.shape) = ib.map (dimAt b.shape))
+    (hLa : Labelling dim a.shape la) (hLb : Labelling dim b.shape lb)
+    (hdis : ∀ x y, x < a.shape.length → y < b.shape.length → la x ≠ lb y) :
+    ∃ C, arrTensordot a b ia ib = some C ∧ (tensordotExpr a b ia ib la lb).SWF ∧
+      C.shape = (tensordotExpr a b ia ib la lb).free.map dim ∧
+      ∀ σ : Asg L, (∀ l ∈ (tensordotExpr a b ia ib la lb).free, σ l < dim l) →
+        C.toLeaf (tensordotExpr a b ia ib la lb).free σ = (tensordotExpr a b ia ib la lb).eval dim σ :=
+  arrTensordot_dot dim a b ia ib la lb hia hib hlta hltb hd hLa hLb hdis
+
+open Ptn.Ein in
+/-- **Transposition = relabelling.**  The array transposed by `first ++ last` (`transpose_tensor_by_leg_list`,
+    `np.transpose`), read through the labels permuted the same way, is the same leaf tensor as the input read
+    through its own labels: a lazily stored axis permutation does not change the tensor of the network. -/
+theorem arr_transpose_relabel {L : Type} [DecidableEq L] {α : Type} [CommSemiring α]
+    (dim : L → Nat) (A At : Arr α) (first last : List Nat) (lab : Nat → L)
+    (h : Bipartition A.shape first last) (ht : A.transposeBy first last = some At)
+    (hdim : ∀ x, x < A.shape.length → dim (lab x) = dimAt A.shape x)
+    (σ : Asg L) (hσ : ∀ x, x < A.shape.length → σ (lab x) < dim (lab x)) :
+    At.toLeaf ((first ++ last).map lab) σ = A.toLeaf (axisLegs lab A.shape.length) σ :=
+  arrTranspose_relabel dim A At first last lab h ht hdim σ hσ
+
+open Ptn.Ein in
+/-- The leaf tensors of the shared line protocol (`ein`, `einrec`: legs + flat integer data) are labelled arrays
+    of shape `legs.map dim` in this sense, at every assignment within the dimensions. -/
+theorem leaf_of_data_is_labelled_array {L : Type} (dim : L → Nat) (legs : List L) (data : Array Int)
+    (σ : Asg L) (h : ∀ l ∈ legs, σ l < dim l) :
+    leafOfData dim legs data σ = (⟨legs.map dim, fun k => data.getD k 0⟩ : Arr Int).toLeaf legs σ :=
+  leafOfData_eq_toLeaf dim legs data σ h
+
 /-! ### Non-vacuity: concrete instances -/
 
 -- a permuted bipartition of an order-4 tensor with a dimension-1 leg
@@ -415,5 +512,41 @@ example : ∀ i j, i < 2 → j < 2 →
 example : ((⟨[2, 1], fun k => k + 7⟩ : Arr ℕ).padLast 0 1).shape = [2, 2] ∧
     ((⟨[2, 1], fun k => k + 7⟩ : Arr ℕ).padLast 0 1).get [1, 0] = 8 ∧
     ((⟨[2, 1], fun k => k + 7⟩ : Arr ℕ).padLast 0 1).get [1, 1] = 0 := by decide
+
+/-! ### Non-vacuity: `tensordot` -/
+
+-- a (2,3,2)-array and a (2,3)-array contracted over axes ([2,1],[0,1]) (a permuted pair list): shape and an entry
+example : (arrTensordot (⟨[2, 3, 2], fun k => (k : ℤ) + 1⟩ : Arr ℤ) ⟨[2, 3], fun k => (k : ℤ) - 2⟩ [2, 1] [0, 1]).map
+    (fun C => (C.shape, C.get [0], C.get [1])) = some ([2], 23, 41) := by decide
+-- the hypotheses of `arr_tensordot_entry` / `arr_tensordot_accepts_iff` hold for it
+example : [2, 1].Nodup ∧ [0, 1].Nodup ∧ (∀ x ∈ [2, 1], x < [2, 3, 2].length) ∧ (∀ x ∈ [0, 1], x < [2, 3].length) ∧
+    [2, 1].map (dimAt [2, 3, 2]) = [0, 1].map (dimAt [2, 3]) := by decide
+-- the remaining axes and the un-permuted index: a[i, k1, k0] with (k0, k1) the summation indices
+example : notIn 3 [2, 1] = [0] ∧ unpermute ([0] ++ [2, 1]) ([1] ++ [0, 2]) = [1, 2, 0] := by decide
+-- nothing contracted (outer product), everything contracted (scalar), dimension-1 axes
+example : (arrTensordot (⟨[2], fun k => (k : ℤ) + 1⟩ : Arr ℤ) ⟨[1, 2], fun k => (k : ℤ) + 3⟩ [] []).map
+    (fun C => (C.shape, (List.range 4).map C.data)) = some ([2, 1, 2], [3, 4, 6, 8]) := by decide
+example : (arrTensordot (⟨[2, 1], fun k => (k : ℤ) + 1⟩ : Arr ℤ) ⟨[1, 2], fun k => (k : ℤ) + 3⟩ [1, 0] [0, 1]).map
+    (fun C => (C.shape, C.data 0)) = some ([], 11) := by decide
+-- rejected: unequal dimensions, a repeated axis, an axis out of range, lists of different length
+example : arrTensordot (⟨[2, 3], fun k => (k : ℤ)⟩ : Arr ℤ) ⟨[2, 3], fun k => (k : ℤ)⟩ [1] [0] = none ∧
+    arrTensordot (⟨[2, 2], fun k => (k : ℤ)⟩ : Arr ℤ) ⟨[2, 2], fun k => (k : ℤ)⟩ [0, 0] [0, 1] = none ∧
+    arrTensordot (⟨[2, 2], fun k => (k : ℤ)⟩ : Arr ℤ) ⟨[2, 2], fun k => (k : ℤ)⟩ [2] [0] = none ∧
+    arrTensordot (⟨[2, 2], fun k => (k : ℤ)⟩ : Arr ℤ) ⟨[2, 2], fun k => (k : ℤ)⟩ [0] [0, 1] = none := by
+  refine ⟨?_, ?_, ?_, ?_⟩ <;> rfl
+-- a labelling: axes of `a` carry labels 0,1,2, axes of `b` labels 3,4; the hypotheses of the bridge theorems hold
+example : Ptn.Ein.Labelling (fun l => [2, 3, 2, 2, 3].getD l 0) [2, 3, 2] (fun x => x) ∧
+    Ptn.Ein.Labelling (fun l => [2, 3, 2, 2, 3].getD l 0) [2, 3] (fun y => y + 3) ∧
+    (∀ x y, x < 3 → y < 2 → (fun x => x) x ≠ (fun y => y + 3) y) :=
+  ⟨⟨by decide, fun _ _ _ _ h => h⟩, ⟨by decide, fun _ _ _ _ h => by omega⟩, fun x y hx _ h => by simp only at h; omega⟩
+-- … and the `sumPairs` side evaluates to the entries computed above (free leg 0 = remaining axis of `a`)
+example : (fun i => Ptn.Ein.sumPairs (fun l => [2, 3, 2, 2, 3].getD l 0) (List.zip [2, 1] [3, 4])
+      (fun τ => (⟨[2, 3, 2], fun k => (k : ℤ) + 1⟩ : Arr ℤ).toLeaf [0, 1, 2] τ *
+        (⟨[2, 3], fun k => (k : ℤ) - 2⟩ : Arr ℤ).toLeaf [3, 4] τ)
+      (fun l => if l = 0 then i else 0)) 1 = 41 := by decide
+-- transposition = relabelling on a concrete (2,3) array: A[1,2] read as At through the swapped labels
+example : ((⟨[2, 3], fun k => k⟩ : Arr ℕ).transposeBy [1] [0]).map
+      (fun At => At.toLeaf ([1, 0].map (fun x => x)) (fun l => if l = 0 then 1 else 2)) =
+    some ((⟨[2, 3], fun k => k⟩ : Arr ℕ).toLeaf [0, 1] (fun l => if l = 0 then 1 else 2)) := by decide
 
 end Ptn.C11
